@@ -240,7 +240,7 @@ func main() {
 	rng := NewRng(seed)
 	thorough := tier == "thorough"
 	switch {
-	case strings.HasPrefix(suite, "c0") && suite <= "c06", suite == "c18":
+	case suite == "c01", suite == "c02", suite == "c03", suite == "c04", suite == "c05", suite == "c06", suite == "c18":
 		runProtoSuite(suite, rng, thorough, s)
 	default:
 		if !runOtherSuite(suite, rng, thorough, s) {
